@@ -569,7 +569,16 @@ def accept_by_distance(repo: Repo) -> RuleRun:
 
     r = RuleRun(PROP, "C18.ACCEPT-BY-DISTANCE", floor=1, what="in FinderBase._find_by_position the distance test is a necessary condition of acceptance (never bypassed through an `or`)")
     fn = repo.func("modify.find.finder.FinderBase._find_by_position")
-    tests = [c for c in ast.walk(fn.node) if isinstance(c, ast.Compare) and len(c.ops) == 1 and isinstance(c.ops[0], (ast.Lt, ast.LtE)) and any(isinstance(x, ast.Call) and (attr_chain(x.func) or "").split(".")[-1] == "norm" for x in ast.walk(c.left)) and isinstance(c.comparators[0], ast.Name) and c.comparators[0].id == "radius"]
+    def is_distance_test(c: ast.AST) -> bool:
+        if not (isinstance(c, ast.Compare) and len(c.ops) == 1):
+            return False
+        has_norm = lambda e: any(isinstance(x, ast.Call) and (attr_chain(x.func) or "").split(".")[-1] == "norm" for x in ast.walk(e))  # noqa: E731
+        is_radius = lambda e: isinstance(e, ast.Name) and e.id == "radius"  # noqa: E731
+        a, b, op = c.left, c.comparators[0], c.ops[0]
+        # norm(...) < radius, or the same test written from the other side: radius > norm(...)
+        return (isinstance(op, (ast.Lt, ast.LtE)) and has_norm(a) and is_radius(b)) or (isinstance(op, (ast.Gt, ast.GtE)) and is_radius(a) and has_norm(b))
+
+    tests = [c for c in ast.walk(fn.node) if is_distance_test(c)]
     r.require(len(tests) >= 1, "_find_by_position: the distance test norm(...) < radius was not found")
     for k, t in enumerate(tests):
         p_ = _parent(t)
